@@ -190,6 +190,28 @@ def run(ctx):
                     others.append((f, n))
     for f, n in others:
         ctx.bad("R19.3", f, "dlclose-outside-deleter", "%s calls dlclose directly: the library can be unmapped while symbols or copies are alive" % short(f.qual), (f, n.get("ln")))
+    # ... and dlopen only as the initialiser of an owning handle: any other successful dlopen (RTLD_NOLOAD "is it loaded?" probes
+    # included) returns a counted handle that nothing closes, so the one dlclose of the last owner no longer unmaps the library
+    owned = set()
+    for f in ctors:
+        for _, _, e in f.all_elems():
+            if e["kind"] == "init" and short(e.get("field") or "") == "handle" and e.get("expr") is not None:
+                owned |= {id(y) for y in walk(e["expr"]) if isinstance(y, dict) and y.get("k") == "call" and (y.get("name") or "") == "dlopen"}
+    stray = []
+    for f in prog.fns.values():
+        if not f.has_cfg or not f.file.startswith("/repo/"):
+            continue
+        for bid, i, e in f.all_elems():
+            if e.get("expr") is None:
+                continue
+            for y in walk(e["expr"]):
+                if isinstance(y, dict) and y.get("k") == "call" and (y.get("name") or "") == "dlopen" and id(y) not in owned:
+                    stray.append((f, y))
+    for f, y in stray:
+        ctx.bad("R19.3", f, "dlopen-outside-owning-handle:%s" % short(f.qual), "%s calls %s and does not hand the result to an owning handle: each successful call adds a reference to the library that is never "
+                "released, so the library stays mapped after the last dl / symbol object has gone" % (short(f.qual), fmt(y)[:70]), (f, y.get("ln")))
+    if not stray:
+        ctx.ok("R19.3", "nitro::dl", "dlopen-only-into-owning-handle", "%d owned dlopen call(s)" % len(owned), "-")
     from .common import fx
     g = fx(ctx, "close_directly")
     ctx.fixture("R19.3", "close_directly", g is not None and any(n.get("name") == "dlclose" for _, _, e in g.roots() for n in dl_calls(e)), True, "dlclose outside a deleter recognised")
